@@ -169,6 +169,14 @@ type walker struct {
 	mapOps    *[]callback    // Store / Delete on graph.roots, per entry
 	fieldCall *[]callback    // calls of function-typed / interface-typed fields of gated.Filter (composeFrom, Broker.Send)
 	sharedTyp map[string]bool
+	// lock leaks: returns of the entry function (not of inlined callees or closures) with a lock held that
+	// no deferred unlock of the entry releases
+	litDepth int
+	// locks held by the goroutine that spawned the code being walked (it may wait for that code: the
+	// collector of Send waits for the traversals): call-backs made there count as made under these locks
+	spawnLocks lockSet
+	deferred map[string]bool
+	leaks    *[]callback
 }
 
 func (w *walker) pos(n ast.Node) string {
@@ -361,18 +369,34 @@ func (w *walker) stmt(s ast.Stmt, ls lockSet) lockSet {
 		for _, r := range t.Results {
 			ls = w.expr(r, ls, false)
 		}
+		w.checkLeak(ls, t)
 		return ls
 	case *ast.DeferStmt:
 		// deferred lock releases are ignored (held to the end); other deferred calls run with the
 		// locks held at function end ~ the current set (see DESIGN: defers registered after the
 		// deferred unlock run before it)
-		if _, op, ok := w.lockOp(t.Call); ok && (op == "Unlock" || op == "RUnlock") {
+		if loc, op, ok := w.lockOp(t.Call); ok && (op == "Unlock" || op == "RUnlock") {
+			if len(w.stack) == 1 && w.litDepth == 0 && w.deferred != nil {
+				w.deferred[loc] = true
+			}
 			return ls
 		}
 		return w.expr(t.Call, ls, false)
 	case *ast.GoStmt:
-		// a new goroutine starts with no locks held
+		// a new goroutine starts with no locks held -- but remember what its spawner holds
+		saved := w.spawnLocks
+		merged := lockSet{}
+		for k, v := range saved {
+			merged[k] = v
+		}
+		for k, v := range ls {
+			if merged[k] != 'W' {
+				merged[k] = v
+			}
+		}
+		w.spawnLocks = merged
 		w.expr(t.Call, lockSet{}, false)
+		w.spawnLocks = saved
 		return ls
 	case *ast.IfStmt:
 		ls = w.stmt(t.Init, ls)
@@ -519,7 +543,10 @@ func (w *walker) expr(e ast.Expr, ls lockSet, _ bool) lockSet {
 		return w.call(t, ls)
 	case *ast.FuncLit:
 		// executed synchronously by its caller (Range callbacks, immediately invoked closures)
-		return w.stmts(t.Body.List, ls)
+		w.litDepth++
+		r := w.stmts(t.Body.List, ls)
+		w.litDepth--
+		return r
 	case *ast.BinaryExpr:
 		ls = w.expr(t.X, ls, false)
 		return w.expr(t.Y, ls, false)
@@ -605,7 +632,13 @@ func (w *walker) call(c *ast.CallExpr, ls lockSet) lockSet {
 		switch f.Sel.Name {
 		case "Process", "Reopen", "Close":
 			if w.isUserCallback(f) {
-				*w.callbacks = append(*w.callbacks, callback{entry: w.entry, kind: f.Sel.Name, locks: ls.clone(), site: w.pos(c)})
+				held := ls.clone()
+				for k, v := range w.spawnLocks {
+					if held[k] != 'W' {
+						held[k] = v
+					}
+				}
+				*w.callbacks = append(*w.callbacks, callback{entry: w.entry, kind: f.Sel.Name, locks: held, site: w.pos(c)})
 			}
 		}
 		// escape summaries: external calls that read through a pointer to a shared type
@@ -642,9 +675,28 @@ func (w *walker) call(c *ast.CallExpr, ls lockSet) lockSet {
 			}
 		}
 	case *ast.FuncLit:
-		return w.stmts(f.Body.List, ls)
+		w.litDepth++
+		r := w.stmts(f.Body.List, ls)
+		w.litDepth--
+		return r
 	}
 	return ls
+}
+
+// checkLeak: the entry function itself returns here (n == nil: falls off its end)
+func (w *walker) checkLeak(ls lockSet, n ast.Node) {
+	if len(w.stack) != 1 || w.litDepth != 0 || w.leaks == nil {
+		return
+	}
+	for loc := range ls {
+		if !w.deferred[loc] {
+			site := "end of function"
+			if n != nil {
+				site = w.pos(n)
+			}
+			*w.leaks = append(*w.leaks, callback{entry: w.entry, kind: loc, locks: ls.clone(), site: site})
+		}
+	}
 }
 
 // isUserCallback: the receiver is of interface type (Node, Closer, Sender ...) or a NodeController
@@ -710,7 +762,7 @@ func main() {
 		loadPkg("encrypt", filepath.Join(*repo, "filters/encrypt")),
 	}
 	var accesses []access
-	var callbacks, writes, nested, mapOps, fieldCall []callback
+	var callbacks, writes, nested, mapOps, fieldCall, leaks []callback
 	sections := map[string]int{}
 	for _, p := range pk {
 		var keys []string
@@ -728,12 +780,17 @@ func main() {
 			}
 			w := &walker{p: p, entry: p.name + "." + k, accesses: &accesses, callbacks: &callbacks, writes: &writes, nested: &nested, sections: sections, mapOps: &mapOps, fieldCall: &fieldCall}
 			w.stack = []string{k}
-			w.stmts(fd.Body.List, lockSet{})
+			w.deferred = map[string]bool{}
+			w.leaks = &leaks
+			end := w.stmts(fd.Body.List, lockSet{})
+			if !terminates(fd.Body.List) {
+				w.checkLeak(end, nil)
+			}
 		}
 	}
 	os.MkdirAll(*out, 0o755)
 	writeAccesses(filepath.Join(*out, "Accesses.lean"), accesses)
-	writeLockSites(filepath.Join(*out, "LockSites.lean"), callbacks, writes, nested)
+	writeLockSites(filepath.Join(*out, "LockSites.lean"), callbacks, writes, nested, leaks)
 	writeRegistryFacts(filepath.Join(*out, "RegistryFacts.lean"), sections, mapOps, fieldCall, pk[0])
 	writeDispatchFacts(filepath.Join(*out, "DispatchFacts.lean"), pk[0])
 	writeDecisions(filepath.Join(*out, "Decisions.lean"), pk[0])
@@ -981,7 +1038,7 @@ func excludedLoc(loc string) bool {
 	return false
 }
 
-func writeLockSites(path string, cbs, writes, nested []callback) {
+func writeLockSites(path string, cbs, writes, nested, leaks []callback) {
 	var sb strings.Builder
 	sb.WriteString("/- GENERATED by harness/cmd/gofacts from /repo's current source. Do not edit. -/\nnamespace Evl.Generated\n\n")
 	sb.WriteString("/-- a call into user code reachable from an exported Broker method; `brokerLock`: 0 not held, 1 read, 2 write -/\nstructure CallbackSite where\n  kind : Nat   -- 0 Process, 1 Reopen, 2 Close\n  brokerLock : Nat\n  deriving DecidableEq, Repr\n\n")
@@ -1064,7 +1121,24 @@ func writeLockSites(path string, cbs, writes, nested []callback) {
 		}
 		sb.WriteString(parts[0] + sep + " -- " + parts[1] + "\n")
 	}
-	sb.WriteString("]\n\nend Evl.Generated\n")
+	sb.WriteString("]\n\n")
+	// returns with a lock still held (and no deferred unlock): a leaked lock
+	seenL := map[string]bool{}
+	var ll []string
+	for _, l := range leaks {
+		k := l.entry + l.kind + l.site
+		if seenL[k] {
+			continue
+		}
+		seenL[k] = true
+		ll = append(ll, fmt.Sprintf("-- %s returns at %s holding %s", l.entry, l.site, l.kind))
+	}
+	sort.Strings(ll)
+	sb.WriteString(fmt.Sprintf("/-- exported functions that can return with one of their locks still held (no deferred unlock covers it) -/\ndef lockLeaks : Nat := %d\n", len(ll)))
+	for _, l := range ll {
+		sb.WriteString(l + "\n")
+	}
+	sb.WriteString("\nend Evl.Generated\n")
 	os.WriteFile(path, []byte(sb.String()), 0o644)
 }
 
